@@ -530,15 +530,19 @@ def field_values(f, r, total_len):
     """candidate replacement encodings (bytes) for field f"""
     if f.enc == "int":
         v = f.val
-        vals = list(INT_BOUNDARY) + [v + 1, v - 1, v * 2, v // 2, -v, v + 4, v - 4, v + 128, v ^ 0x10000, v ^ 0x20000,
-                                     v ^ 0x40000, v ^ 0x80000, v ^ 0x100000, v ^ 0x200000, v ^ 0x400000, v ^ 0x800000,
-                                     v ^ 0x1000000, v ^ 0x2000000, v ^ (1 << 29), v ^ (1 << 30), v ^ (1 << 31), v | 0x10000,
-                                     total_len, total_len - f.off, total_len + 1]
+        vals = []
         for k in ("nlookup", "nenvs", "ndefs", "remaining", "sc", "blen", "nconst", "nenv", "frame", "stackstart",
                   "stacktop", "stack", "index"):
             if k in f.ctx:
                 c = f.ctx[k]
-                vals += [c, c - 1, c + 1, c + 2, c - 4, c + 4, c + 10, c + 11, c * 2 + 1]
+                vals += [c, c - 1, c + 1, c + 2, c - 4, c + 4, c + 10, c + 11, c * 2 + 1, c - 15, c - 16]
+        vals += [v + 1, v - 1, 0, 1, v * 2, v // 2, -v, v + 4, v - 4, v + 128, 2, 3, 4, 5, 8, 16, 64, 255, 65536,
+                 (1 << 31) - 1, -1, (1 << 31) - 11, (1 << 31) - 4, -(1 << 31)]
+        if f.role in ("def.flags", "fiber.flags", "frame.flags"):
+            vals += [v ^ (1 << b) for b in range(16, 32)] + [v | 0x10000, 0, -1, 0x7FFFFFFF]
+            if f.role == "fiber.flags":   # every status, with and without the resume/child/env bits
+                vals += [(v & ~0x3F0000) | (st << 16) for st in range(0, 20)]
+        vals += list(INT_BOUNDARY) + [total_len, total_len - f.off, total_len + 1]
         if f.role.startswith("peg."):
             vals += [len(PEG_OPS), len(PEG_OPS) - 1] + list(range(0, len(PEG_OPS), 3)) + [0xFFFFFFFF, 0xFFFFFFFD, 0xFFFFFFFC]
         out = [enc_int(x) for x in vals]
@@ -564,14 +568,28 @@ def field_values(f, r, total_len):
     return []
 
 
-# weights: which fields are worth corrupting more often
+# weights: which fields are worth corrupting more often (cross-references between sections of an image first)
 ROLE_WEIGHT = {
     "bytes": 0.15, "elem.int": 0.3, "key.int": 0.3, "val.int": 0.3, "sourcemap.line": 0.1, "sourcemap.column": 0.1,
-    "def.bytecode": 0.6, "peg.litbytes": 0.2, "peg.setword": 0.2,
+    "def.bytecode": 1.0, "peg.litbytes": 0.2, "peg.setword": 0.2, "peg.num": 0.7, "def.clobitset": 0.5,
+    "string.len": 0.7, "symbol.len": 0.7, "keyword.len": 0.7, "buffer.len": 1.0, "registry.len": 0.7,
+    "tuple.flag": 0.3, "frame.slot.int": 0.2, "env.value.int": 0.2,
 }
+# fields that other parts of the image (or the interpreter, later) trust: layout of fiber stacks, environment
+# geometry, reference numbers, counts in function headers
+HOT1 = {"fiber.flags", "fiber.frame", "fiber.stackstart", "fiber.stacktop", "fiber.maxstack", "frame.flags", "frame.prevframe",
+        "frame.pc", "env.offset", "env.length", "func.envcount", "envref.index", "defref.index", "peg.bytecode_len",
+        "peg.num_constants", "chan.is_threaded", "chan.limit", "chan.count"}
+HOT2 = {"def.flags", "def.slotcount", "def.arity", "def.min_arity", "def.max_arity", "def.constants_length",
+        "def.bytecode_length", "def.environments_length", "def.defs_length", "def.symbolmap_length", "def.environment",
+        "ref.index", "int64.value", "chan.closed", "rng.counter", "array.len", "tuple.len", "table.count", "struct.count"}
 
 
 def field_weight(f):
+    if f.role in HOT1:
+        return 20.0
+    if f.role in HOT2:
+        return 6.0
     if f.role in ROLE_WEIGHT:
         return ROLE_WEIGHT[f.role]
     if f.role.endswith(".lead"):
@@ -579,3 +597,19 @@ def field_weight(f):
     if f.role.endswith(".int"):
         return 0.4
     return 2.0
+
+
+def is_hot(f):
+    return f.role in HOT1 or f.role in HOT2
+
+
+def sweep_values(f, total_len):
+    """deterministic, de-duplicated candidate list for one field (used by sweeps and by the thorough enumeration)"""
+    import random as _random
+    out = []
+    seen = set()
+    for v in field_values(f, _random.Random(f.off * 7919 + f.size), total_len):
+        if v not in seen:
+            seen.add(v)
+            out.append(v)
+    return out
